@@ -282,7 +282,11 @@ class MemEngine(object):
         t = self.t
         self.w.probe("vcpu_field")
         xy = self.pick_chip()
-        fields = [f for f in self._fields("vcpu") if f.length == 1]
+        fields = [f for f in self._fields("vcpu")
+                  if f.length == 1 or f.kind == "s"]
+        if t.draw(6) == 0:
+            strs = [f for f in fields if f.kind == "s"]
+            fields = strs or fields
         f = fields[t.draw(len(fields))]
         p = t.draw(len(self.m.chips[xy].cores))
         sh = self.shadow[xy]
@@ -292,8 +296,10 @@ class MemEngine(object):
         mc = self.c.mc
         if write:
             if f.kind == "s":
-                txt = "".join(chr(97 + t.draw(26)) for _ in range(
-                    t.draw(f.size + 1)))
+                # (a name that fills the field to its last byte is legal)
+                n_txt = [f.size, f.size - 1, 0, 1][t.draw(4)] if t.draw(2) \
+                    else t.draw(f.size + 1)
+                txt = "".join(chr(97 + t.draw(26)) for _ in range(n_txt))
                 raw = txt.encode().ljust(f.size, b"\0")
                 val = txt
             else:
